@@ -219,20 +219,29 @@ class Tensor(Funsor, metaclass=TensorMeta):
             return self
 
         # Handle diagonal variable substitution, including renaming onto the
-        # name of an input that survives the renaming pass below.
+        # name of an input that survives the renaming pass below. An input whose
+        # renaming is materialized survives that pass too, hence the loop.
         var_counts = Counter(v for v in subs.values() if isinstance(v, Variable))
-        kept = frozenset(
+        kept = set(
             k
             for k in self.inputs
             if not isinstance(subs.get(k), (Variable, Slice))
         )
+        while True:
+            clash = [
+                k
+                for k, v in subs.items()
+                if k not in kept and (var_counts[v] > 1 or v.name in kept)
+            ]
+            if not clash:
+                break
+            kept.update(clash)
         subs = OrderedDict(
             (
                 k,
                 (
                     self.materialize(v)
-                    if var_counts[v] > 1
-                    or (isinstance(v, (Variable, Slice)) and v.name in kept)
+                    if k in kept and isinstance(v, (Variable, Slice))
                     else v
                 ),
             )
